@@ -45,6 +45,7 @@ type catchpointObs struct {
 
 func init() {
 	registerObserver([]string{"C14"}, func(s *Sim) Observer { return &catchpointObs{labels: map[basics.Round]string{}} })
+	propBias["C14"] = "cpboxes" // labels commit to boxes too: box-heavy workload (remap defined in obs_cptransfer.go)
 	cfgTweaks["C14"] = func(c *Config, draw func(string, int, int) int) {
 		c.CatchpointInterval = uint64(draw("cfg.cpinterval", 4, 8))
 		if c.Rounds < 45 {
